@@ -35,18 +35,39 @@ Chi2(y, yi, Sinv) == SumSeq([a \in 1..Len(y) |-> SumSeq([b \in 1..Len(y) |->
                          Mul(Mul(R(y[a] - yi[a]), Sinv[a][b]), R(y[b] - yi[b]))], Len(y))], Len(y))
 MustKeep(db, y, x2, Sinv) == {i \in 1..Len(db) : Le(Chi2(y, db[i][1], Sinv), x2)}
 \* inverse covariances of the catalogue the harness uses (index = position in the catalogue)
-Sinvs(m) == IF m = 1 THEN <<<<<<R(1)>>>>, <<<<Frac(1, 4)>>>>>>
+\* (the last entries have eigenvalues well below 1/2: a search window that is too narrow only for small variances shows there)
+Sinvs(m) == IF m = 1 THEN <<<<<<R(1)>>>>, <<<<Frac(1, 4)>>>>, <<<<R(4)>>>>>>
+            ELSE IF m = 3 THEN
+                 << <<<<R(1), R(0), R(0)>>, <<R(0), R(1), R(0)>>, <<R(0), R(0), R(1)>>>>,
+                    <<<<R(1), R(0), R(0)>>, <<R(0), Frac(1, 4), R(0)>>, <<R(0), R(0), Frac(1, 9)>>>>,     \* inverse of diag(1, 4, 9)
+                    \* equal noise with a common correlation: a REPEATED eigenvalue (4, 1, 1) -- inverse of I + 11^T
+                    <<<<Frac(3, 4), Frac(-1, 4), Frac(-1, 4)>>, <<Frac(-1, 4), Frac(3, 4), Frac(-1, 4)>>, <<Frac(-1, 4), Frac(-1, 4), Frac(3, 4)>>>>,
+                    \* eigenvalues (4, 4, 1) -- inverse of 4 I - 11^T
+                    <<<<Frac(1, 2), Frac(1, 4), Frac(1, 4)>>, <<Frac(1, 4), Frac(1, 2), Frac(1, 4)>>, <<Frac(1, 4), Frac(1, 4), Frac(1, 2)>>>> >>
             ELSE << <<<<R(1), R(0)>>, <<R(0), R(1)>>>>,
                     <<<<R(1), R(0)>>, <<R(0), Frac(1, 4)>>>>,
                     <<<<Frac(2, 3), Frac(-1, 3)>>, <<Frac(-1, 3), Frac(2, 3)>>>>,          \* inverse of [[2,1],[1,2]]
-                    <<<<Frac(1, 3), Frac(-1, 3)>>, <<Frac(-1, 3), Frac(5, 6)>>>> >>         \* inverse of [[5,2],[2,2]]
-X2s == <<Frac(1, 2), R(2), R(5)>>
+                    <<<<Frac(1, 3), Frac(-1, 3)>>, <<Frac(-1, 3), Frac(5, 6)>>>>,          \* inverse of [[5,2],[2,2]]
+                    <<<<R(4), R(0)>>, <<R(0), R(1)>>>>,                                    \* inverse of diag(1/4, 1)
+                    <<<<Frac(16, 3), Frac(-8, 3)>>, <<Frac(-8, 3), Frac(16, 3)>>>> >>      \* inverse of [[1/4,1/8],[1/8,1/4]]
+X2s == <<Frac(1, 2), R(2), R(5), R(8)>>
 
 CONSTANTS MChan, MaxN, NSample
-Ys == IF MChan = 1 THEN {<<a>> : a \in 0..2} ELSE {<<a, b>> : a \in 0..2, b \in 0..1}
-DBs == UNION {[1..n -> Ys \X (0..3)] : n \in 1..MaxN}
+Ys == IF MChan = 1 THEN {<<a>> : a \in 0..2} ELSE IF MChan = 3 THEN {<<a, b, c>> : a \in 0..1, b \in 0..1, c \in 0..1}
+      ELSE {<<a, b>> : a \in 0..2, b \in 0..1}
+DBs == UNION {[1..n -> Ys \X (0..(IF MChan = 3 THEN 2 ELSE 3))] : n \in 1..MaxN}    \* (the set must stay below 10^6 elements)
+\* databases placed symmetrically (entries that are permutations of one another, or mirror images about an observation):
+\* for suitable observations and covariances all their entries lie on ONE chi-square shell -- TLC decides for which (OneShell)
+ShellDBs == CASE MChan = 3 ->
+                 {<< <<<<1, 0, 0>>, xs[1]>>, <<<<0, 1, 0>>, xs[2]>>, <<<<0, 0, 1>>, xs[3]>> >> : xs \in {<<0, 1, 2>>, <<2, 0, 1>>, <<1, 1, 0>>}}
+                 \cup {<< <<<<1, 1, 0>>, xs[1]>>, <<<<0, 1, 1>>, xs[2]>>, <<<<1, 0, 1>>, xs[3]>> >> : xs \in {<<0, 1, 2>>, <<2, 2, 0>>}}
+            [] MChan = 2 ->
+                 {<< <<<<1, 0>>, a>>, <<<<0, 1>>, b>> >> : a \in {0, 3}, b \in {1, 2}}
+                 \cup {<< <<<<0, 0>>, a>>, <<<<2, 0>>, b>> >> : a \in {0, 3}, b \in {1}}
+                 \cup {<< <<<<0, 1>>, 0>>, <<<<2, 1>>, 3>>, <<<<0, 1>>, 1>> >>}
+            [] OTHER -> {<< <<<<0>>, 0>>, <<<<2>>, 3>> >>, << <<<<0>>, 1>>, <<<<2>>, 1>>, <<<<2>>, 3>> >>}
 VARIABLES db, yobs
-Init == db \in RandomSubset(NSample, DBs) /\ yobs \in Ys \cup {IF MChan = 1 THEN <<7>> ELSE <<7, 7>>}
+Init == db \in RandomSubset(NSample, DBs) \cup ShellDBs /\ yobs \in Ys \cup {IF MChan = 1 THEN <<7>> ELSE IF MChan = 3 THEN <<7, 7, 7>> ELSE <<7, 7>>}
 Next == UNCHANGED <<db, yobs>>
 \* model-level laws: variance is non-negative, the mean lies within the selected x range
 Laws == \A regime \in {"spike", "flat"} : LET I == Sel(db, yobs, regime) IN
@@ -57,6 +78,11 @@ Row(regime) == LET I == Sel(db, yobs, regime) IN
     ELSE [empty |-> FALSE, mean |-> Mean(db, I), var |-> Var(db, I), xs |-> SortedX(db, I), cum |-> Cdf(db, I),
           \* the property bounds the quantiles by the x range of the WHOLE database
           lo |-> MinX(db, 1..Len(db)), hi |-> MaxX(db, 1..Len(db))]
+\* genuinely Gaussian weights exp(-chi2/2) are irrational -- but entries with EQUAL chi-square have equal weights: when the
+\* whole database is at one chi-square from the observation the estimate is the plain mean / spread, whatever S is
+OneShell(d) == Cardinality({Chi2(yobs, db[i][1], Sinvs(MChan)[d]) : i \in 1..Len(db)}) = 1
 Emit == PrintT(<<"CASE", ToJson([db |-> db, y |-> yobs, spike |-> Row("spike"), flat |-> Row("flat"),
-          must |-> [d \in 1..Len(Sinvs(MChan)) |-> [q \in 1..3 |-> MustKeep(db, yobs, X2s[q], Sinvs(MChan)[d])]]])>>)
+          shell |-> [d \in 1..Len(Sinvs(MChan)) |-> OneShell(d)],
+          chi2 |-> [d \in 1..Len(Sinvs(MChan)) |-> Chi2(yobs, db[1][1], Sinvs(MChan)[d])],
+          must |-> [d \in 1..Len(Sinvs(MChan)) |-> [q \in 1..Len(X2s) |-> MustKeep(db, yobs, X2s[q], Sinvs(MChan)[d])]]])>>)
 =============================================================================
